@@ -225,6 +225,7 @@ type callRun struct {
 	lastHRecv   int
 	gotFirst    bool
 	termSeen    bool
+	term        int32 // the caller has obtained the final result
 	nEvents     int32
 	keep        []interface{}
 }
@@ -236,6 +237,20 @@ func (c *callRun) emit(ev string, kv ...interface{}) {
 		return
 	}
 	c.eng.tr.Emit(c.id, ev, kv...)
+	if ev == "CInvokeRet" || ev == "CRecvRet" {
+		// the caller has the call's final result: the call is completed and consumed
+		final := ev == "CInvokeRet" || !c.sc.respStream()
+		for i := 0; i+1 < len(kv); i += 2 {
+			if k, _ := kv[i].(string); k == "res" {
+				if m, ok := kv[i+1].(map[string]interface{}); ok && m["k"] != "nil" {
+					final = true
+				}
+			}
+		}
+		if final {
+			atomic.StoreInt32(&c.term, 1)
+		}
+	}
 	if c.free && c.sc.CancelN > 0 {
 		if n := atomic.AddInt32(&c.nEvents, 1); int(n) == c.sc.CancelN {
 			c.doCancel(c.sc.CancelW)
